@@ -2603,6 +2603,15 @@ impl DnsIncoming {
     }
 }
 
+/// Returns true if every label of `name` (RFC 6763 escapes honoured, as `write_name` splits
+/// it) fits into a DNS label, i.e. is at most 63 bytes.
+pub(crate) fn name_labels_fit(name: &str) -> bool {
+    let name = name.strip_suffix('.').unwrap_or(name);
+    DnsOutPacket::parse_escaped_name(name)
+        .iter()
+        .all(|label| label.len() < 64)
+}
+
 const fn u16_from_be_slice(bytes: &[u8]) -> u16 {
     let u8_array: [u8; 2] = [bytes[0], bytes[1]];
     u16::from_be_bytes(u8_array)
